@@ -37,7 +37,7 @@ func runScenario(eng *Engine, sc scenario) (bool, string) {
 	src := filepath.Join(eng.verifDir, "replay", "scenarios", sc.File)
 	pkgDir := filepath.Join(repoDir, sc.PkgDir)
 	target := filepath.Join(pkgDir, "zz_verif_scenario_test.go")
-	dir := filepath.Join(eng.verifDir, "out", "replaytmp")
+	dir := filepath.Join(eng.verifDir, "out", replayTmpName())
 	os.MkdirAll(dir, 0o755)
 	ov, _ := json.Marshal(map[string]any{"Replace": map[string]string{target: src}})
 	ovFile := filepath.Join(dir, "scenario_"+sanitizeFile(sc.Run)+".overlay.json")
